@@ -19,8 +19,16 @@ import (
 //	bigvalue/<n>   the same with ONE string of n bytes (a single Arrow buffer of that size)
 //	bigrandom/<n>  the same with an incompressible string of n bytes (a payload of that size on the wire)
 //	haul/<n>, haulwide/<n>   a long-haul batch of n items (haulInput)
+//	complex/<n>/<salt>/<items>   items whose body / attribute is a MAP value that serialises to about n bytes (complexInput)
 func synthInput(signal, synth string) (Input, error) {
 	kind, arg, _ := strings.Cut(synth, "/")
+	if kind == "complex" {
+		var n, salt, items int
+		if _, err := fmt.Sscanf(arg, "%d/%d/%d", &n, &salt, &items); err != nil || n < 0 || items < 0 {
+			return Input{}, fmt.Errorf("bad synthetic batch %q", synth)
+		}
+		return complexInput(signal, n, salt, items), nil
+	}
 	if kind == "haul" || kind == "haulwide" {
 		n, err := strconv.Atoi(arg)
 		if err != nil || n < 0 {
@@ -184,6 +192,52 @@ func haulInput(signal string, n int, wide bool) Input {
 			dp.SetIntValue(int64(id))
 			dp.SetTimestamp(pcommon.Timestamp(1000 + id))
 			attrs(dp.Attributes(), id)
+		}
+	}
+	return in
+}
+
+// complexInput builds `items` items that each carry a map-valued attribute
+// (logs: also a map-valued body) whose serialised form is about n bytes; the
+// content depends on salt and on the item, so that two streams never carry the
+// same bytes (complex values go through the CBOR encoder, a code path of its
+// own next to the scalar columns - seeded change C16e pools its buffers).
+func complexInput(signal string, n, salt, items int) Input {
+	fill := func(v pcommon.Value, i int) {
+		m := v.SetEmptyMap()
+		m.PutStr("payload", strings.Repeat(string(rune('A'+(salt+i)%26)), n))
+		m.PutInt("salt", int64(salt))
+		m.PutInt("item", int64(i))
+		m.PutEmptySlice("list").AppendEmpty().SetStr("s" + strconv.Itoa(salt))
+	}
+	in := Input{Signal: signal}
+	switch signal {
+	case Traces:
+		in.Traces = ptrace.NewTraces()
+		ss := in.Traces.ResourceSpans().AppendEmpty().ScopeSpans().AppendEmpty()
+		for i := 0; i < items; i++ {
+			sp := ss.Spans().AppendEmpty()
+			sp.SetName("complex")
+			fill(sp.Attributes().PutEmpty("m"), i)
+			fill(sp.Events().AppendEmpty().Attributes().PutEmpty("m"), i+1)
+		}
+	case Logs:
+		in.Logs = plog.NewLogs()
+		sl := in.Logs.ResourceLogs().AppendEmpty().ScopeLogs().AppendEmpty()
+		for i := 0; i < items; i++ {
+			l := sl.LogRecords().AppendEmpty()
+			fill(l.Body(), i)
+			fill(l.Attributes().PutEmpty("m"), i+1)
+		}
+	default:
+		in.Metrics = pmetric.NewMetrics()
+		sm := in.Metrics.ResourceMetrics().AppendEmpty().ScopeMetrics().AppendEmpty()
+		for i := 0; i < items; i++ {
+			m := sm.Metrics().AppendEmpty()
+			m.SetName("complex")
+			dp := m.SetEmptyGauge().DataPoints().AppendEmpty()
+			dp.SetIntValue(int64(i))
+			fill(dp.Attributes().PutEmpty("m"), i)
 		}
 	}
 	return in
